@@ -38,6 +38,7 @@ type obj struct {
 	np        *wm.NP
 	anp       *wm.ANP
 	banp      *wm.ANP
+	second    bool // object of the second (restricted) alphabet only
 }
 
 func (o obj) k8s() runtime.Object {
@@ -82,6 +83,7 @@ type op struct {
 	insert bool
 	byPtr  bool
 	o      obj
+	second bool // operation of the second (restricted) alphabet only
 	query  *[4]string
 	bulk   []obj // SetResources(policies, pods, namespaces) with these objects
 	clear  bool  // ClearResources()
@@ -124,6 +126,13 @@ func objects() []obj {
 		// policyTypes omitted: the policy governs egress because it has egress rules
 		{kind: "NetworkPolicy", key: "NetworkPolicy/a/n2", variant: "types-omitted", np: &wm.NP{NS: "a", Name: "n2", PodSel: *wm.ML("app", "a"),
 			Egress: []wm.NPRule{{Peers: []wm.NPPeer{{NSSel: all}}, Ports: []wm.NPPort{{HasPort: true, Num: 8080}}}}}},
+		// second alphabet: two pods without owner in one namespace that a policy tells apart, and a second policy next to n1
+		func() obj {
+			o := mkpod("noowner-app=z", "default", "p6", "", map[string]string{"app": "z"}, 80)
+			o.second = true
+			return o
+		}(),
+		{kind: "NetworkPolicy", key: "NetworkPolicy/default/n3", variant: "deny-app=b", second: true, np: &wm.NP{NS: "default", Name: "n3", PodSel: *wm.ML("app", "b"), Types: []string{"Ingress"}}},
 		{kind: "ANP", key: "ANP//a5", variant: "allow80@5", anp: &wm.ANP{Name: "a5", Prio: 5, Subject: subjB, Ingress: []wm.ARule{allow}}},
 		{kind: "ANP", key: "ANP//a10", variant: "deny@10", anp: &wm.ANP{Name: "a10", Prio: 10, Subject: subjB, Ingress: []wm.ARule{deny}}},
 		// a third ANP: removing one of three must keep the other two in priority order
@@ -134,24 +143,61 @@ func objects() []obj {
 
 var queries = [][4]string{{"a/p1", "default/p3", "tcp", "80"}, {"a/p1", "default/p3", "tcp", "8080"}, {"a/p2", "default/p3", "tcp", "80"}, {"default/p3", "a/p1", "tcp", "80"}, {"a/p1", "default/p4", "tcp", "80"}, {"a/p1", "a/p2", "tcp", "8080"}, {"a/p1", "default/d1-1", "tcp", "80"}, {"a/p1", "default/p5", "tcp", "80"}, {"a/p1", "default/p3", "tcp", "http"}, {"a/p1", "default/d1-2", "tcp", "80"}}
 
+// queriesSecond are asked as operations only in the second alphabet; the invariant evaluates them in every state.
+var queriesSecond = [][4]string{{"a/p1", "default/p6", "tcp", "80"}, {"default/p4", "default/p6", "tcp", "80"}}
+
+func allQueries() [][4]string {
+	return append(append([][4]string{}, queries...), queriesSecond...)
+}
+
+// secondAlphabet: the operations explored from the last seed (everything about the owner-less pods and the policies of
+// namespace default).
+func secondAlphabet(all []op) []op {
+	var res []op
+	for _, o := range all {
+		for _, k := range []string{"Pod/default/p4", "Pod/default/p6", "NetworkPolicy/default/n1", "NetworkPolicy/default/n3", "Namespace//default", "q:a/p1,default/p4", "q:a/p1,default/p6", "q:default/p4,default/p6", "q:a/p1,default/p3,tcp,80"} {
+			if strings.Contains(o.name, k) {
+				res = append(res, o)
+				break
+			}
+		}
+	}
+	return res
+}
+
+// mainAlphabet: every operation that is not reserved to the second alphabet.
+func mainAlphabet(all []op) []op {
+	var res []op
+	for _, o := range all {
+		if !o.second {
+			res = append(res, o)
+		}
+	}
+	return res
+}
+
 func ops() []op {
 	var res []op
 	for _, o := range objects() {
-		res = append(res, op{name: fmt.Sprintf("ins:%s#%s", o.key, o.variant), insert: true, o: o})
+		res = append(res, op{name: fmt.Sprintf("ins:%s#%s", o.key, o.variant), insert: true, o: o, second: o.second})
 	}
 	seen := map[string]bool{}
 	for _, o := range objects() {
 		if !seen[o.key] && o.kind != "Deployment" {
 			seen[o.key] = true
-			res = append(res, op{name: "del:" + o.key, o: o})
+			res = append(res, op{name: "del:" + o.key, o: o, second: o.second})
 			if o.kind == "ANP" || o.kind == "NetworkPolicy" || o.kind == "Pod" && o.pod.Name == "p1" {
-				res = append(res, op{name: "delptr:" + o.key, o: o, byPtr: true})
+				res = append(res, op{name: "delptr:" + o.key, o: o, byPtr: true, second: o.second})
 			}
 		}
 	}
 	for i := range queries {
 		q := queries[i]
 		res = append(res, op{name: "q:" + strings.Join(q[:], ","), query: &q})
+	}
+	for i := range queriesSecond {
+		q := queriesSecond[i]
+		res = append(res, op{name: "q:" + strings.Join(q[:], ","), query: &q, second: true})
 	}
 	objs := objects()
 	res = append(res, op{name: "setresources:nsA(team=y)+p3(http8080)+n1(v2)", bulk: []obj{objs[1], objs[8], objs[15]}}, op{name: "clearresources", clear: true})
@@ -386,7 +432,7 @@ func invariant(r result, hist []*op, seedLen int) (fails []fw.Failure, outcome s
 		last = opKind(hist[len(hist)-1].name)
 	}
 	var outs []string
-	for _, q := range queries {
+	for _, q := range allQueries() {
 		var v1, v2 bool
 		var e1, e2 error
 		func() {
@@ -491,6 +537,8 @@ func seeds(alpha []op) [][]*op {
 		pick(append(append([]string{}, full...), "q:a/p1,default/p3,tcp,80", "q:a/p1,default/p3,tcp,8080", "q:default/p3,a/p1,tcp,80")...),
 		pick("ins:Pod/a/p1#app=a", "ins:Pod/default/p3#http80", "ins:Pod/default/p4#noowner", "ins:BANP//default#deny"),
 		pick("ins:Pod/a/p1#app=a", "ins:Pod/default/p3#http80", "ins:ANP//a20#allowall@20", "ins:ANP//a5#allow80@5", "ins:ANP//a10#deny@10", "q:a/p1,default/p3,tcp,8080"),
+		// the seed of the second alphabet (last): both owner-less pods, the policy of the whole namespace, a peer with owner
+		pick("ins:Namespace//a#team=x", "ins:Namespace//default#", "ins:Pod/a/p1#app=a", "ins:Pod/default/p3#http80", "ins:Pod/default/p4#noowner", "ins:Pod/default/p6#noowner-app=z", "ins:NetworkPolicy/default/n1#v2"),
 	}
 }
 
@@ -501,9 +549,12 @@ func Run(r *fw.Run) {
 		"operation alphabet of DESIGN §3 C15 extended (2 namespaces, 4 pods and a Deployment incl. variants, 2 NetworkPolicies incl. one without namespace and one without policyTypes, 3 ANPs, BANP, 7 queries, SetResources / ClearResources)",
 		"cache debug mode (hit log file) is switched off by the overlay hook except in the designated scope",
 	}
-	alpha := ops()
-	r.Bounds["operation_alphabet"] = len(alpha)
-	sd := seeds(alpha)
+	allOps := ops()
+	mainAlpha, secondAlpha := mainAlphabet(allOps), secondAlphabet(allOps)
+	r.Bounds["operation_alphabet"] = len(mainAlpha)
+	r.Bounds["operation_alphabet_of_the_last_seed"] = len(secondAlpha)
+	sd := seeds(allOps)
+	alpha := allOps // name lookup (replay); the search takes the alphabet of its seed
 	if r.Replaying() {
 		var rd replayData
 		if err := json.Unmarshal(r.ReplayData, &rd); err != nil {
@@ -559,11 +610,18 @@ func Run(r *fw.Run) {
 		st := seedStat{Seed: si}
 		seen := map[[20]byte]bool{}
 		outcomes := map[string]bool{}
+		alpha := mainAlpha
+		if si == len(sd)-1 {
+			alpha = secondAlpha
+		}
 		complete := true
 		var seq int64
 		seedDepth := depth
 		if r.Quick() && si >= 2 {
 			seedDepth = depth - 1 // quick tier: the pre-populated seeds beyond the first are searched one level less deep
+		}
+		if si == len(sd)-1 {
+			seedDepth = depth + 3 // the second alphabet is small: its seed is searched deeper
 		}
 		// level d holds the candidate histories parents x alphabet (level 0: the seed itself). They are never materialised
 		// as one slice (level 8 of the thorough tier has some 3e8 of them): a level is evaluated chunk by chunk, in
